@@ -49,6 +49,48 @@ pub fn delta_parse(src: &str) -> Parsed
 }
 
 /// compare the delta tree of `src` with the alpha tree; failures into `out`
+/// every `return` is followed by `:`, sits directly in a function body and
+/// is the last one there
+fn return_only_as_documented(src: &str) -> bool
+{
+	let toks = crate::reflex::lex(src.as_bytes()).toks;
+	let text = |k: usize| src.get(toks[k].start..toks[k].end).unwrap_or("");
+	let mut depth = 0i32;
+	let mut seen_in_body = false;
+	for i in 0..toks.len()
+	{
+		match text(i)
+		{
+			"{" => depth += 1,
+			"}" =>
+			{
+				depth -= 1;
+				if depth == 0
+				{
+					seen_in_body = false;
+				}
+			}
+			"return" | "return!" =>
+			{
+				if text(i) == "return!" || depth != 1 || seen_in_body || i + 1 >= toks.len() || text(i + 1) != ":"
+				{
+					return false;
+				}
+				seen_in_body = true;
+			}
+			_ =>
+			{
+				// nothing but the value may follow it
+				if seen_in_body && depth == 1 && matches!(text(i), ";" | "var" | "goto" | "loop" | "if")
+				{
+					return false;
+				}
+			}
+		}
+	}
+	true
+}
+
 pub fn compare_trees(src: &str, what: &str, out: &mut CaseOut) -> Option<T>
 {
 	crate::alpha::record_input(&[("m.pn".to_string(), src.to_string())]);
@@ -320,7 +362,18 @@ impl Check for C16
 		let mut out = CaseOut::default();
 		if let Ok(src) = std::str::from_utf8(bytes)
 		{
-			compare_trees(src, "any text", &mut out);
+			// `return` is an ordinary identifier for the first generation and a
+			// reserved word for the second (the properties grant this): only
+			// texts that use it the documented way, as the `return:` that ends
+			// a function body, are compared
+			if return_only_as_documented(src)
+			{
+				compare_trees(src, "any text", &mut out);
+			}
+			else
+			{
+				out.discarded = Some("`return` used as an ordinary name".into());
+			}
 		}
 		Some(out)
 	}
